@@ -47,6 +47,15 @@ def gen_graph(rng, nclasses=None, ninst=None, nprops=None, bnodes=True, maxcard=
                 else:
                     o = I('x%d' % rng.randint(0, 3)) if rng.random() < 0.7 else B('u%d' % rng.randint(0, 2))
                 add((n, p, o))
+    if rng.random() < 0.12:
+        # classes that are themselves typed (ex:Person a rdfs:Class; Wikidata: wd:Q5 wdt:P31 <metaclass>): a class IRI is then also an instance
+        # only classes whose instances are all IRIs: with inverse_paths an instance that is a blank node would be named in a value set
+        # ('^ rdf:type [_:b0]': finding F-C04-4, reproduced by its own pinned input)
+        ok = [c for c in classes if not any(t[0][0] == 'B' and t[1] == inst_prop and t[2] == c for t in triples)]
+        for c in rng.sample(ok, rng.randint(1, min(2, len(ok))) if ok else 0):
+            add((c, inst_prop, I('Meta') if rng.random() < 0.6 else rng.choice(classes)))
+            if rng.random() < 0.5:
+                add((c, EX + 'p0', L('class label')))
     if inst_prop != RDF_TYPE and rng.random() < 0.5:
         # rdf:type must then behave as an ordinary property
         for n in rng.sample(nodes, min(2, len(nodes))):
